@@ -60,6 +60,9 @@ func (m *Machine) runtimeError(s string) value {
 }
 
 func (m *Machine) panicRuntime(s string) {
+	if m.cur != nil {
+		m.lastPanicStack = m.where(m.cur.top)
+	}
 	panic(targetPanic{m.runtimeError(s)})
 }
 
